@@ -10,6 +10,7 @@ name), assembled, disassembled again, assembled again.
 from __future__ import annotations
 
 import json
+import re
 import random
 import sys
 from pathlib import Path
@@ -151,6 +152,15 @@ def _job(arg):
         enc = bytes(b[: r["n"]])
         b2 = bytes(r["b2"][: r["n2"]])
         tg = ["p" if pre else "n"]
+        # the shape of the internal-memory operands in the ORIGINAL text (n = direct, also by register name; bpn / pxn / pyn =
+        # indexed; bppx / bppy): the recorded findings are about particular text shapes, so the shape is part of the key
+        shp = []
+        for grp_ in re.findall(r"\(([^()]*)\)", r["text"]):
+            g_ = grp_.replace(" ", "")
+            shp.append("bppx" if g_ == "BP+PX" else "bppy" if g_ == "BP+PY" else "bpn" if g_.startswith("BP+") else "pxn" if g_.startswith("PX+")
+                       else "pyn" if g_.startswith("PY+") else "n")
+        if shp:
+            tg.append("t=" + "-".join(shp))
         if r["text"].startswith("???"):
             tg.append("unk")
         elif not en.documented(b[0] if pre else None, op, enc):
